@@ -118,6 +118,12 @@ CsfThm2.vos CsfThm2.vok CsfThm2.required_vos: CsfThm2.v Base.vos Units.vos Units
 Instr2.vo Instr2.glob Instr2.v.beautified Instr2.required_vo: Instr2.v Base.vo Units.vo UnitsThm.vo Contents.vo Container.vo ContainerThm.vo ContainerThm2.vo Dilute.vo Instr.vo Solve.vo Plate.vo Prog.vo
 Instr2.vio: Instr2.v Base.vio Units.vio UnitsThm.vio Contents.vio Container.vio ContainerThm.vio ContainerThm2.vio Dilute.vio Instr.vio Solve.vio Plate.vio Prog.vio
 Instr2.vos Instr2.vok Instr2.required_vos: Instr2.v Base.vos Units.vos UnitsThm.vos Contents.vos Container.vos ContainerThm.vos ContainerThm2.vos Dilute.vos Instr.vos Solve.vos Plate.vos Prog.vos
+HeapRefine.vo HeapRefine.glob HeapRefine.v.beautified HeapRefine.required_vo: HeapRefine.v Base.vo Units.vo Contents.vo Container.vo ContainerThm.vo Plate.vo PlateThm.vo Dilute.vo Solve.vo Heap.vo HeapThm.vo ConfigThm.vo
+HeapRefine.vio: HeapRefine.v Base.vio Units.vio Contents.vio Container.vio ContainerThm.vio Plate.vio PlateThm.vio Dilute.vio Solve.vio Heap.vio HeapThm.vio ConfigThm.vio
+HeapRefine.vos HeapRefine.vok HeapRefine.required_vos: HeapRefine.v Base.vos Units.vos Contents.vos Container.vos ContainerThm.vos Plate.vos PlateThm.vos Dilute.vos Solve.vos Heap.vos HeapThm.vos ConfigThm.vos
+Props/C04.vo Props/C04.glob Props/C04.v.beautified Props/C04.required_vo: Props/C04.v Base.vo Units.vo Contents.vo Container.vo Plate.vo Dilute.vo Solve.vo Heap.vo HeapThm.vo HeapRefine.vo
+Props/C04.vio: Props/C04.v Base.vio Units.vio Contents.vio Container.vio Plate.vio Dilute.vio Solve.vio Heap.vio HeapThm.vio HeapRefine.vio
+Props/C04.vos Props/C04.vok Props/C04.required_vos: Props/C04.v Base.vos Units.vos Contents.vos Container.vos Plate.vos Dilute.vos Solve.vos Heap.vos HeapThm.vos HeapRefine.vos
 Props/C12.vo Props/C12.glob Props/C12.v.beautified Props/C12.required_vo: Props/C12.v Base.vo Units.vo UnitsThm.vo Contents.vo Container.vo ContainerThm.vo ContainerThm2.vo Dilute.vo Solve.vo SolveThm.vo CsfThm.vo HistoryThm.vo CsfThm2.vo
 Props/C12.vio: Props/C12.v Base.vio Units.vio UnitsThm.vio Contents.vio Container.vio ContainerThm.vio ContainerThm2.vio Dilute.vio Solve.vio SolveThm.vio CsfThm.vio HistoryThm.vio CsfThm2.vio
 Props/C12.vos Props/C12.vok Props/C12.required_vos: Props/C12.v Base.vos Units.vos UnitsThm.vos Contents.vos Container.vos ContainerThm.vos ContainerThm2.vos Dilute.vos Solve.vos SolveThm.vos CsfThm.vos HistoryThm.vos CsfThm2.vos
@@ -139,9 +145,6 @@ Props/C02.vos Props/C02.vok Props/C02.required_vos: Props/C02.v Base.vos Units.v
 Props/C03.vo Props/C03.glob Props/C03.v.beautified Props/C03.required_vo: Props/C03.v Base.vo Units.vo Contents.vo Container.vo ContainerThm.vo ContainerThm2.vo Dilute.vo Solve.vo Plate.vo PlateThm.vo Prog.vo HistoryThm.vo
 Props/C03.vio: Props/C03.v Base.vio Units.vio Contents.vio Container.vio ContainerThm.vio ContainerThm2.vio Dilute.vio Solve.vio Plate.vio PlateThm.vio Prog.vio HistoryThm.vio
 Props/C03.vos Props/C03.vok Props/C03.required_vos: Props/C03.v Base.vos Units.vos Contents.vos Container.vos ContainerThm.vos ContainerThm2.vos Dilute.vos Solve.vos Plate.vos PlateThm.vos Prog.vos HistoryThm.vos
-Props/C04.vo Props/C04.glob Props/C04.v.beautified Props/C04.required_vo: Props/C04.v Base.vo Units.vo Contents.vo Container.vo Plate.vo Dilute.vo Solve.vo Heap.vo HeapThm.vo
-Props/C04.vio: Props/C04.v Base.vio Units.vio Contents.vio Container.vio Plate.vio Dilute.vio Solve.vio Heap.vio HeapThm.vio
-Props/C04.vos Props/C04.vok Props/C04.required_vos: Props/C04.v Base.vos Units.vos Contents.vos Container.vos Plate.vos Dilute.vos Solve.vos Heap.vos HeapThm.vos
 Props/C05.vo Props/C05.glob Props/C05.v.beautified Props/C05.required_vo: Props/C05.v Base.vo Units.vo UnitsThm.vo Contents.vo Container.vo ContainerThm.vo ContainerThm2.vo Dilute.vo Solve.vo SolveThm.vo HistoryThm.vo
 Props/C05.vio: Props/C05.v Base.vio Units.vio UnitsThm.vio Contents.vio Container.vio ContainerThm.vio ContainerThm2.vio Dilute.vio Solve.vio SolveThm.vio HistoryThm.vio
 Props/C05.vos Props/C05.vok Props/C05.required_vos: Props/C05.v Base.vos Units.vos UnitsThm.vos Contents.vos Container.vos ContainerThm.vos ContainerThm2.vos Dilute.vos Solve.vos SolveThm.vos HistoryThm.vos
